@@ -97,6 +97,13 @@ func (c12Prop) Gen(t *Tape, ph *PhaseCfg) Case {
 		k := 2 + t.Draw(3)
 		for i := 0; i < k; i++ {
 			s.emitOpt(t, x)
+			if t.Draw(3) == 0 {
+				// another option in between
+				s.emitOpt(t, ds.Opts[t.Draw(len(ds.Opts))])
+			}
+		}
+		if spec == "[OPTIONS]" || strings.HasPrefix(spec, "[OPTIONS] ") {
+			s.foldAdjacent(t, ds)
 		}
 		c.Argv = append(append([]string{"app"}, s.toks...), tail...)
 		c.ArgvB = c.Argv
@@ -108,7 +115,7 @@ func (c12Prop) Gen(t *Tape, ph *PhaseCfg) Case {
 		c.HasDD = spec.hasDD()
 		mut := 2
 		if mode == 1 {
-			mut = 0
+			mut = -1 // no mutation, no folding: the occurrence records are needed
 		}
 		s := genSentence(t, spec, ds, mut)
 		c.Argv = append([]string{"app"}, s.toks...)
